@@ -208,10 +208,16 @@ def run_case(job):
                 unk = ["x", "y", "z"][:dim]
                 funcs = [(lambda x, y, z, k=k: G[k, 0] * x + G[k, 1] * y + (G[k, 2] * z if dim == 3 else 0.0) + off[k]) for k in range(dim)]
                 bn = bnodes if c.get("bc", "func") != "array-permuted" else bnodes[np.random.default_rng(7).permutation(bnodes.size)]
+                # the (value, unknown) pairs may be listed in any order (the docstring's own example lists "y" before "x"): every second case
+                # lists them in reverse
+                if i % 2 == 1:
+                    funcs_, unk_ = funcs[::-1], unk[::-1]
+                else:
+                    funcs_, unk_ = funcs, unk
                 if c.get("bc", "func") == "func":
-                    sim.add_dirichlet(bn, funcs, unk)
+                    sim.add_dirichlet(bn, funcs_, unk_)
                 else:  # nodal arrays aligned with the node list as given
-                    sim.add_dirichlet(bn, [f(X[bn, 0], X[bn, 1], X[bn, 2]) for f in funcs], unk)
+                    sim.add_dirichlet(bn, [f(X[bn, 0], X[bn, 1], X[bn, 2]) for f in funcs_], unk_)
                 exact = X[:, :dim] @ G.T + off
                 if lagr:
                     tie(sim, "elastic", interior, bnodes, unk, exact)
